@@ -183,8 +183,24 @@ def c06_cases(tier):
                 a2 = f"{name}()" if hi == ch else lit(hi)
                 out.append((f"AnyBetween({a1}, {a2})", exp))
                 out.append((f"AnyButBetween({a1}, {a2})", ('den', den.compl(exp[1]))))
-    # E4 ranges: all ordered pairs of printable ASCII
     pr = [chr(c) for c in range(32, 127)]
+    # token-typed one-character patterns and token instances in every argument position (first, middle, last),
+    # next to neighbours with which an unescaped '-', '^' or ']' would form a range, a negation or the end of the class
+    targs = [(f"Pregex({lit(c)})", c) for c in pr] + [(f"{name}()", ch) for name, ch in TOKENS.items()]
+    for src, ch in targs:
+        for tmpl, others in (("{0}", ''), ("'+', {0}, 'a'", '+a'), ("{0}, 'a'", 'a'), ("'a', {0}", 'a'), ("']', {0}, '['", '][')):
+            s = den.from_chars([ch] + list(others))
+            out.append((f"AnyFrom({tmpl.format(src)})", ('den', s)))
+            out.append((f"AnyButFrom({tmpl.format(src)})", ('den', den.compl(s))))
+    for src, ch in targs[:95]:
+        for a1, a2, lo_, hi_ in ((src, "'~'", ch, '~'), ("' '", src, ' ', ch), (src, "Pregex('z')", ch, 'z')):
+            if ord(lo_) < ord(hi_):
+                s = den.norm([(ord(lo_), ord(hi_))])
+                out.append((f"AnyBetween({a1}, {a2})", ('den', s)))
+                out.append((f"AnyButBetween({a1}, {a2})", ('den', den.compl(s))))
+            else:
+                out.append((f"AnyBetween({a1}, {a2})", ('raise', {'InvalidRangeException'})))
+    # E4 ranges: all ordered pairs of printable ASCII
     for a, b in itertools.product(pr, repeat=2):
         if ord(a) < ord(b):
             s = den.norm([(ord(a), ord(b))])
